@@ -376,6 +376,15 @@ fn case_cmd(id: &str, ctx: &mut Context, c: &CmdCase, stats: &mut Stats) -> Stri
     format!("(case {id} (kind cmd) (cmd {ctxt}) (st{}) (text {}) (impl {}))", dump_st(ctx, &syms), quote(&text), dump_cmd_res(ctx, &res, stats))
 }
 
+/// arbitrary command text (alternative spellings, malformed variants) through parse_command
+fn case_cmdtext(id: &str, ctx: &mut Context, syms: &[ExprRef], text: &str, origin: &str, stats: &mut Stats) -> String {
+    let st = symtab_of(ctx, syms);
+    let res = guarded(|| parse_command(ctx, &st, text.as_bytes()).map_err(|e| format!("{e}")));
+    stats.bump("cmdtext_origin", origin);
+    stats.bump(&format!("cmdtext_result:{origin}"), match &res { Ok(Ok(_)) => "ok", Ok(Err(_)) => "err", Err(_) => "panic" });
+    format!("(case {id} (kind cmdtext) (st{}) (text {}) (origin {}) (impl {}))", dump_st(ctx, syms), quote(text), quote(origin), dump_cmd_res(ctx, &res, stats))
+}
+
 fn case_script(id: &str, ctx: &mut Context, syms: &[ExprRef], lines: &[String], ncmds: u64, cmds_txt: &str, stats: &mut Stats) -> String {
     let mut st = symtab_of(ctx, syms);
     let data: String = lines.concat();
@@ -451,6 +460,11 @@ fn run_inner(args: &Args) {
                     let cc = parse_cmd(&mut ctx, &c.field("cmd").unwrap()[0]);
                     case_cmd(&id, &mut ctx, &cc, &mut stats)
                 }
+                "cmdtext" => {
+                    let text = c.field("text").unwrap()[0].atom().to_string();
+                    let origin = c.field("origin").map(|o| o[0].atom().to_string()).unwrap_or_default();
+                    case_cmdtext(&id, &mut ctx, &syms, &text, &origin, &mut stats)
+                }
                 "script" => {
                     let lines: Vec<String> = c.field("lines").unwrap_or(&[]).iter().map(|l| l.atom().to_string()).collect();
                     let ncmds = c.field("ncmds").map(|n| n[0].num()).unwrap_or(0);
@@ -493,6 +507,7 @@ fn run_inner(args: &Args) {
             "text" => "text",
             "val" => "val",
             "cmd" => "cmd",
+            "cmdtext" => "cmdtext",
             "script" => "script",
             "gua" => "gua",
             "solverval" => "solverval",
@@ -500,7 +515,8 @@ fn run_inner(args: &Args) {
                 0..=34 => "rt",
                 35..=59 => "text",
                 60..=74 => "val",
-                75..=86 => "cmd",
+                75..=82 => "cmd",
+                83..=86 => "cmdtext",
                 87..=94 => "script",
                 _ => "gua",
             },
@@ -529,6 +545,42 @@ fn run_inner(args: &Args) {
                     if let Some(line) = case_rt(&id, &mut ctx, root, &envs, &mut stats) {
                         out.push(&mut stats, line);
                     }
+                } else if kind == "text" && r.chance(1, 4) {
+                    // well-formed terms with operators and forms the writer never emits (n-ary, bvult/bvslt/distinct, let scopes)
+                    let w = match root.get_type(&ctx) {
+                        Type::BV(w) => w,
+                        Type::Array(_) => continue,
+                    };
+                    let (b, c) = {
+                        let mut g = Gen::new(&mut ctx, &mut r);
+                        g.plain_names = true;
+                        g.used = syms.iter().map(|s| (g.ctx.get_symbol_name(*s).unwrap().to_string(), s.get_type(g.ctx))).collect();
+                        (g.bv(w, 1), g.bv(w, 1))
+                    };
+                    let all_syms = symbols_of(&ctx, &[root, b, c]);
+                    let (Some(ta), Some(tb), Some(tc)) = (term_text(&ctx, root), term_text(&ctx, b), term_text(&ctx, c)) else { continue };
+                    let shadow = all_syms.iter().find(|s| s.get_type(&ctx) == Type::BV(w)).map(|s| ctx.get_symbol_name(*s).unwrap().to_string());
+                    let (bool_ops, bv_ops): (&[&str], &[&str]) = (&["and", "or", "xor", "="], &["bvand", "bvor", "bvxor", "bvadd", "bvmul"]);
+                    let t = match r.below(9) {
+                        0 => format!("(bvult {ta} {tb})"),
+                        1 => format!("(bvslt {ta} {tb})"),
+                        2 => format!("(distinct {ta} {tb})"),
+                        3 => {
+                            let op = if w == 1 { *r.pick(bool_ops) } else { *r.pick(bv_ops) };
+                            format!("({op} {ta} {tb} {tc})")
+                        }
+                        4 => format!("(let ((tmp!1 {ta})) (= tmp!1 (let ((tmp!2 {tb})) (ite (= tmp!2 tmp!1) tmp!2 {tc}))))"),
+                        5 => match &shadow {
+                            // the let-bound name shadows a declared symbol only inside the let
+                            Some(x) if !x.contains(' ') => format!("(= (let (({x} {ta})) {x}) {x})"),
+                            _ => format!("(= {ta} {tb} {tc})"),
+                        },
+                        6 => format!("(let ((a {ta}) (b {tb})) (= a b))"),
+                        7 => format!("(=> (= {ta} {tb}) (= {tb} {tc}) (= {ta} {tc}))"),
+                        _ => format!("(ite (bvult {ta} {tb}) {tc} (({ta})))"),
+                    };
+                    let line = case_text(&id, &mut ctx, &all_syms, &t, "extra-forms", &mut stats);
+                    out.push(&mut stats, line);
                 } else if kind == "text" {
                     let Some(text) = term_text(&ctx, root) else { continue };
                     let (v, origin) = variant(&mut r, &text);
@@ -597,6 +649,40 @@ fn run_inner(args: &Args) {
                     gen_cmd(&mut g, &mut stats)
                 };
                 let line = case_cmd(&id, &mut ctx, &c, &mut stats);
+                out.push(&mut stats, line);
+            }
+            "cmdtext" => {
+                let c = {
+                    let mut g = Gen::new(&mut ctx, &mut r);
+                    g.plain_names = true;
+                    gen_cmd(&mut g, &mut stats)
+                };
+                let exprs = cmd_exprs(&c);
+                let intro: Option<ExprRef> = match &c {
+                    CmdCase::Declare(s) | CmdCase::Define(s, _) => Some(*s),
+                    _ => None,
+                };
+                let syms: Vec<ExprRef> = symbols_of(&ctx, &exprs).into_iter().filter(|s| Some(*s) != intro).collect();
+                let Ok(text) = write_cmd(&ctx, &cmd_to_impl(&c)) else { continue };
+                let text = text.trim_end().to_string();
+                let (t, origin) = match r.below(6) {
+                    0 if text.starts_with("(declare-const ") => {
+                        // (declare-fun n () T)
+                        let rest = &text["(declare-const ".len()..];
+                        let sp = rest.find(' ').unwrap_or(0);
+                        (format!("(declare-fun {} (){}", &rest[..sp], &rest[sp..]), "declare-fun")
+                    }
+                    0 | 1 if text.starts_with("(define-fun ") => {
+                        // (define-const n T e)
+                        (text.replacen("(define-fun ", "(define-const ", 1).replacen(" () ", " ", 1), "define-const")
+                    }
+                    2 => (format!("; comment\n{text} ; trailing"), "comments"),
+                    _ => {
+                        let (v, o) = variant(&mut r, &text);
+                        (v, o)
+                    }
+                };
+                let line = case_cmdtext(&id, &mut ctx, &syms, &t, origin, &mut stats);
                 out.push(&mut stats, line);
             }
             "script" => {
